@@ -130,6 +130,26 @@ Proof.
 Qed.
 Print Assumptions C12_raising_hook.
 
+(* ---- the hook MODULE failing while it is imported (it is executed again at every restart attempt).
+   `except (ImportError, IOError)` around the import: such a module is a missing module - for every
+   configuration, state and exit the outcome is that of the same component without loadable hook
+   (the DLMESORestart fallback is consulted).  Anything else raised by the module, and a module
+   without Restart, is a broken hook: the exception leaves Engine.restart after the attempt has been
+   counted, the controller keeps RestartCouldNotInitiate - the restart is refused whatever run()
+   would do. *)
+Theorem C12_hook_import : forall c s r l h stable ok,
+  (forall m, l = LoadRaises m -> (isinstance m "ImportError" || isinstance m "OSError") = true ->
+     ctl_restart c s r (hook_after_load l r h) stable ok = ctl_restart (unloadable c) s r h stable ok) /\
+  (hook_called c s r = true -> custom_hook c = true ->
+   (l = LoadNoRestart \/ exists m, l = LoadRaises m /\ (isinstance m "ImportError" || isinstance m "OSError") = false) ->
+     ctl_restart c s r (hook_after_load l r h) stable ok = (bump s, CouldNotInitiate)) /\
+  hook_after_load LoadOk r h = h.
+Proof.
+  intros c s r l h stable ok. split; [intros m -> Hm; exact (load_import_error_is_missing c s r m h stable ok Hm)|].
+  split; [exact (load_broken_refused c s r l h stable ok)|reflexivity].
+Qed.
+Print Assumptions C12_hook_import.
+
 (* ---- the DLMESO CONTROL-file hook shipped in engine.py as a concrete hook instance: four possible
    answers, silent on every reason but ResourceExhausted, rewrites the file only when it allows the
    restart, afterwards "restart" is the second-last line, idempotent (the keyword is inserted at
@@ -341,7 +361,16 @@ Example C12_nonvacuous_raise :
    run_hist ex_named init_st (map ev [mro_ModuleNotFoundError; mro_ModuleNotFoundError; mro_ModuleNotFoundError])
      = ([CouldNotInitiate], Some Failed, {| restarts := 1; resub := 0; shut := true |}) /\
    fst (fst (run_hist ex_named init_st (map ev [mro_FileNotFoundError; mro_FileNotFoundError; mro_FileNotFoundError])))
-     = [Initiated; Initiated; Initiated]).
+     = [Initiated; Initiated; Initiated]) /\
+  (* the module itself fails at import: ModuleNotFoundError -> missing module, the fallback's IOError on
+     ResourceExhausted starts the task again; SyntaxError / no Restart -> refused *)
+  ctl_restart ex_named init_st ResourceExhausted (hook_after_load (LoadRaises mro_ModuleNotFoundError) ResourceExhausted HPossible) true true
+    = ({| restarts := 1; resub := 0; shut := false |}, Initiated) /\
+  ctl_restart ex_named init_st ResourceExhausted
+    (hook_after_load (LoadRaises ["SyntaxError"; "Exception"; "BaseException"; "object"]%string) ResourceExhausted HPossible) true true
+    = ({| restarts := 1; resub := 0; shut := false |}, CouldNotInitiate) /\
+  ctl_restart ex_named init_st ResourceExhausted (hook_after_load LoadNoRestart ResourceExhausted HPossible) true true
+    = ({| restarts := 1; resub := 0; shut := false |}, CouldNotInitiate).
 Proof. repeat split; reflexivity. Qed.
 
 (* the configuration theorems are not vacuous: a document with a literal list in a platform override, a
